@@ -201,8 +201,19 @@ async fn send_one<M: Big>(cb: &mut ChannelBuffer, m: &M, ch: &Ch, sh: &Shared) -
 }
 
 /// Some(is_fin) after a message was received and logged; None after an error.
-async fn recv_one<M: Big>(cb: &mut ChannelBuffer, ch: &Ch, sh: &Shared, fin_id: u32) -> Option<bool> {
-    match cb.recv_full_msg::<M>().await {
+/// `impatient_ms` > 0: recv_full_msg is polled under that timeout and dropped / re-issued until it returns, as a
+/// client with select! / timeout around it would do - also between two segments of one message.
+async fn recv_one<M: Big>(cb: &mut ChannelBuffer, ch: &Ch, sh: &Shared, fin_id: u32, impatient_ms: u64) -> Option<bool> {
+    let res = if impatient_ms == 0 {
+        cb.recv_full_msg::<M>().await
+    } else {
+        loop {
+            if let Ok(r) = tokio::time::timeout(Duration::from_millis(impatient_ms), cb.recv_full_msg::<M>()).await {
+                break r;
+            }
+        }
+    };
+    match res {
         Ok(m) => {
             let t = sh.t(); // AFTER the return
             let e = catch(|| minicbor::to_vec(&m));
@@ -237,12 +248,13 @@ async fn sender<M: Big>(mut cb: ChannelBuffer, msgs: Vec<M>, ch: Ch, sh: Arc<Sha
 async fn receiver<M: Big>(mut cb: ChannelBuffer, ch: Ch, sh: Arc<Shared>, seed: u64, slow_ms: u64) {
     let mut rng = Rng::new(seed);
     let fin_id = digest(&enc(&M::fin()));
+    let impatient_ms = if rng.bool() { rng.range(1, 3) } else { 0 };
     if slow_ms > 0 {
         tokio::time::sleep(Duration::from_millis(slow_ms)).await;
     }
     loop {
         jitter(&mut rng).await;
-        match recv_one::<M>(&mut cb, &ch, &sh, fin_id).await {
+        match recv_one::<M>(&mut cb, &ch, &sh, fin_id, impatient_ms).await {
             Some(false) => {}
             _ => break,
         }
@@ -270,7 +282,7 @@ async fn pingpong<M: Big>(mut cb: ChannelBuffer, msgs: Vec<M>, ch: Ch, sh: Arc<S
                 None => me_done = true,
             }
         } else if !peer_done {
-            match recv_one::<M>(&mut cb, &ch, &sh, fin_id).await {
+            match recv_one::<M>(&mut cb, &ch, &sh, fin_id, if first { 2 } else { 0 }).await {
                 Some(fin) => peer_done = fin,
                 None => return,
             }
